@@ -1,9 +1,6 @@
-"""C12 replay/search: callback traces of real runs / externally driven steps against the specified trace."""
-import random
-import time
-from verif.native.common import load_hint, write_replay, finish
+import os, sys
+sys.path.insert(0, os.environ.get("VERIF_REPO", "/repo"))
 
-PRELUDE = '''
 from BPTK_Py import Model, Agent
 from BPTK_Py.modeling.simultaneousScheduler import SimultaneousScheduler
 from BPTK_Py.modeling.dataCollector import DataCollector
@@ -152,52 +149,9 @@ def run_model_steps(case):
                 return "Model.run_step over %d steps (dt %r, stop %r): trace record %d is %r, expected %r" % (total + 1, dt, stop, i, x, y)
         return "Model.run_step over %d steps (dt %r, stop %r): %d trace records, expected %d (first missing: %r)" % (total + 1, dt, stop, len(TR), len(exp), exp[len(TR):len(TR) + 1])
     return None
-'''
-exec(PRELUDE)
 
-
-def gen(rnd):
-    n = rnd.choice([1, 2, 4, 10])
-    start = rnd.randint(0, 3)
-    stop = start + rnd.randint(0, 2)
-    agents = rnd.randint(0, 5)
-    kills = []
-    if agents >= 2 and rnd.random() < 0.5:
-        for _ in range(rnd.randint(1, 2)):
-            actor = rnd.randint(0, agents - 1)
-            victim = rnd.randint(0, agents - 1)
-            kills.append(((rnd.randint(start, stop), rnd.randint(0, n - 1), actor), victim))
-    return dict(start=start, stop=stop, n=n, agents=agents, collect=rnd.random() < 0.5,
-                mode=rnd.choice(['run', 'steps']), kills=kills, types=rnd.choice([None, ['a', 'b'], ['b', 'a', 'a'], ['a', 'b', 'b', 'a']]),
-                again=rnd.random() < 0.4)
-
-
-def main():
-    hint = load_hint()
-    rnd = random.Random(hint.get('seed', 0))
-    t_end = time.time() + hint.get('budget_s', 20)
-    n = 0
-    failures = []
-    for mc in [(2, 2, 3), (4, 3, 0), (1, 3, 2), (10, 1, 1), (8, 2, 2)]:
-        n += 1
-        try:
-            bad = run_model_steps(mc)
-        except Exception as e:
-            bad = None      # harness trouble is never a violation
-        if bad:
-            body = PRELUDE + '\ncase = %r\nbad = run_model_steps(case)\nprint("case (steps per round, stop, agents):", case)\nprint("FAIL: " + bad if bad else "PASS")\nsys.exit(1 if bad else 0)\n' % (mc,)
-            failures.append(dict(what='%s  (case %r)' % (bad, mc), script=write_replay('C12', 'model_steps', body), known=None))
-            break
-    while time.time() < t_end and not failures:
-        case = gen(rnd)
-        n += 1
-        bad = run(case)
-        if bad:
-            body = PRELUDE + '\ncase = %r\nbad = run(case)\nprint("case:", case)\nprint("FAIL: " + bad if bad else "PASS")\nsys.exit(1 if bad else 0)\n' % (case,)
-            p = write_replay('C12', 'case', body)
-            failures.append(dict(what='%s  (case %r)' % (bad, case), script=p, known=None))
-            break
-    finish(n, failures)
-
-
-main()
+case = (2, 2, 3)
+bad = run_model_steps(case)
+print("case (steps per round, stop, agents):", case)
+print("FAIL: " + bad if bad else "PASS")
+sys.exit(1 if bad else 0)
